@@ -12,6 +12,8 @@ Fault kinds: EOF LOSS DUP SWAP FLIP JUNK (change the delivered text), IOERR
 import io
 
 FORMS = ('str', 'list', 'tuple', 'gen', 'filelike', 'stringio', 'lines')
+FILE_FORMS = FORMS + ('realfile',)
+_SCRATCH = None
 TEXT_FAULTS = ('EOF', 'LOSS', 'DUP', 'SWAP', 'FLIP', 'JUNK')
 
 # One representative per character category and per token kind, plus the
@@ -179,7 +181,8 @@ class SimReader:
     """
 
     def __init__(self, chunks, form='list', on_chunk=None, ioerr_at=None):
-        assert form in FORMS, form
+        assert form in FILE_FORMS, form
+        self._fh = None
         self.chunks = list(chunks)
         self.form = form
         self.on_chunk = on_chunk
@@ -191,6 +194,11 @@ class SimReader:
     @property
     def text(self):
         return ''.join(self.chunks)
+
+    def close(self):
+        if self._fh is not None:
+            self._fh.close()
+            self._fh = None
 
     def _iter_chunks(self):
         for k, c in enumerate(self.chunks):
@@ -234,6 +242,29 @@ class SimReader:
             self.exhausted = True
             self.delivered = list(self.chunks)
             return io.StringIO(''.join(self.chunks), newline='')
+        if f == 'realfile':
+            # a real file opened in text mode, as the README and the test fixture
+            # do; only for LF-only text (text mode would rewrite '\r', i.e.
+            # deliver different characters) - otherwise the StringIO stand-in
+            text = ''.join(self.chunks)
+            self.requested = len(self.chunks)
+            self.exhausted = True
+            self.delivered = list(self.chunks)
+            if '\r' in text:
+                return io.StringIO(text, newline='')
+            import atexit
+            import os
+            import shutil
+            import tempfile
+            global _SCRATCH
+            if _SCRATCH is None:
+                _SCRATCH = tempfile.mkdtemp(prefix='tsim-files-')
+                atexit.register(shutil.rmtree, _SCRATCH, True)
+            path = os.path.join(_SCRATCH, 'src.tex')
+            with open(path, 'w', encoding='utf-8', newline='') as fp:
+                fp.write(text)
+            self._fh = open(path, encoding='utf-8')
+            return self._fh
         if f == 'lines':
             self.requested = len(self.chunks)
             self.exhausted = True
